@@ -12,7 +12,8 @@ for m in man:
     try:
         subprocess.run(['git','-C','/repo','worktree','add','--detach','-f',tmp+'/r','HEAD'],check=True,capture_output=True)
         r=tmp+'/r'
-        shutil.copy('/repo/contracts_verif.go', r)  # the contract file under test is the current one
+        if os.environ.get('ICE_WORKTREE_CONTRACTS'):
+            shutil.copy('/repo/contracts_verif.go', r)  # uncommitted contracts under development (default: the committed hook)
         p=subprocess.run(['git','-C',r,'apply','--unidiff-zero','--recount','-C0',f'{V}/selftest/mutants/{m["name"]}.patch'],capture_output=True,text=True)
         if p.returncode!=0:
             p=subprocess.run(['patch','-p1','-d',r,'-i',f'{V}/selftest/mutants/{m["name"]}.patch'],capture_output=True,text=True)
